@@ -23,6 +23,7 @@ namespace sim
       void *arg;
       bool joined;
       long prio;
+      int no_preempt;   // > 0 while the task initialises a function-local static (others would block on it for real)
     };
 
     Task tasks[MAXT];
@@ -38,6 +39,18 @@ namespace sim
     uint32_t pct_change[8];
     long pct_low = 0;
     uint64_t rs[4];
+
+    uint64_t preempt_left = 0;   // edges until the next forced decision point
+    uint64_t prs = 0;            // generator of the slice lengths (independent of the strategy's draws)
+    uint64_t next_slice()
+    {
+      // between half and one and a half times the mean
+      prs ^= prs << 13;
+      prs ^= prs >> 7;
+      prs ^= prs << 17;
+      const uint64_t m = prm.preempt;
+      return m / 2 + 1 + prs % (m + 1);
+    }
 
     unsigned shortcut_mask_v = 0;
     unsigned long fired[32];
@@ -256,7 +269,12 @@ namespace sim
         tasks[i].joined = false;
         tasks[i].waiting_for = -1;
         tasks[i].prio = 0;
+        tasks[i].no_preempt = 0;
       }
+    prs = p.seed * 0x9e3779b97f4a7c15ULL + 0x2545F4914F6CDD1DULL;
+    if (prs == 0)
+      prs = 1;
+    preempt_left = p.preempt ? next_slice() : 0;
     ntasks = 1;
     tasks[0].state = 1;
     tasks[0].joined = true;
@@ -309,6 +327,7 @@ namespace sim
     t.joined = false;
     t.waiting_for = -1;
     t.prio = static_cast<long>(rnext() % 1000000) + 1;
+    t.no_preempt = 0;
     pthread_create(&t.th, nullptr, trampoline, &t);
     const int next = decide(SITE_SPAWN, false);
     if (next >= 0)
@@ -395,6 +414,57 @@ namespace sim
       fired[i] = 0;
   }
 }
+
+// Forced decision points. In builds that compile the code under test with -fsanitize-coverage=trace-pc-guard the
+// compiler calls this function on every control-flow edge of that code (and of nothing else: not the C++ runtime,
+// not the sanitizer, not this file). Only the task that holds the token executes, so a plain countdown is enough,
+// and since the code under test is deterministic the points fall at the same edges in every execution of a scenario.
+#ifdef GWB_SIM_PREEMPT
+extern "C" void __sanitizer_cov_trace_pc_guard(uint32_t *)
+{
+  if (!sim::active || sim::prm.preempt == 0)
+    return;
+  ++sim::st.edges;
+  if (--sim::preempt_left != 0)
+    return;
+  sim::preempt_left = sim::next_slice();
+  if (sim::tasks[sim::cur].no_preempt > 0)
+    return;
+  ++sim::st.preemptions;
+  sim::yield_point(sim::SITE_PREEMPT);
+}
+extern "C" void __sanitizer_cov_trace_pc_guard_init(uint32_t *start, uint32_t *stop)
+{
+  for (uint32_t *x = start; x < stop; ++x)
+    *x = 1;
+}
+
+// A task that is parked while it initialises a function-local static would make every other task that reaches
+// the same static block for real, outside the scheduler's control: no forced decision points inside such an
+// initialisation (the linker routes the guard calls of the code under test here when the build asks for it).
+extern "C" int __real___cxa_guard_acquire(void *);
+extern "C" void __real___cxa_guard_release(void *);
+extern "C" void __real___cxa_guard_abort(void *);
+extern "C" int __wrap___cxa_guard_acquire(void *g)
+{
+  const int r = __real___cxa_guard_acquire(g);
+  if (r != 0 && sim::active)
+    ++sim::tasks[sim::cur].no_preempt;
+  return r;
+}
+extern "C" void __wrap___cxa_guard_release(void *g)
+{
+  if (sim::active && sim::tasks[sim::cur].no_preempt > 0)
+    --sim::tasks[sim::cur].no_preempt;
+  __real___cxa_guard_release(g);
+}
+extern "C" void __wrap___cxa_guard_abort(void *g)
+{
+  if (sim::active && sim::tasks[sim::cur].no_preempt > 0)
+    --sim::tasks[sim::cur].no_preempt;
+  __real___cxa_guard_abort(g);
+}
+#endif
 
 // the two symbols the library hooks (include/world_builder/verif_hooks.h) call
 extern "C" void gwb_verif_point(int site)
